@@ -227,7 +227,7 @@ fn prepare<G: Group>(sc: &Scenario, idx: usize, st: &mut RunStats, rng: &mut Sim
 }
 
 fn odd_member<G: Group>(sc: &Scenario, what: &Odd, rng: &mut SimRng) -> Option<(Context, RangeStatement<G>, RangeProof<G>)> {
-    let w = WitnessSpec { values: vec![1], promises: vec![None], blind_seed: rng.next_u64(), seed_nonce: None, zero_blind: vec![], same_as_prev: vec![] };
+    let w = WitnessSpec { values: vec![1], promises: vec![None], blind_seed: rng.next_u64(), seed_nonce: None, zero_blind: vec![], same_as_prev: vec![], special_blind: None };
     let ctx = Context { label: 1, extra: None };
     let (bits, ext) = match what {
         Odd::Bits => (if sc.bits == 64 { 32 } else { sc.bits * 2 }, sc.ext),
